@@ -391,10 +391,12 @@ def http_field_diffs(rec, ignore_error_body=True):
     t = []
     if ih.get('status') != mh.get('status'):
         return ['http.status']
-    for k in ('vid', 'pvid', 'sr'):
+    for k in ('vid', 'pvid'):
         if ih.get(k) != mh.get(k):
             t.append('http.headers')
             break
+    if ih.get('sr') != mh.get('sr'):
+        t.append('http.urgency')
     st = ih.get('status')
     if ih.get('cc') != mh.get('cc'):
         t.append('http.cache')
@@ -408,22 +410,113 @@ def http_field_diffs(rec, ignore_error_body=True):
             t.append('snap.accept')
     return t
 
+def _fields(d):
+    """comparable fields of a parsed dump"""
+    sn = d['snap']
+    return {'latest': d['latest'], 'snap': sn[0] if sn else None, 'since': int(sn[2]) if sn else None,
+            'ts': int(sn[1]) if sn and sn[1].lstrip('-').isdigit() else None, 'data': d['data'],
+            'versions': d['V'], 'children': d['P']}
+
+def dump_diff_tags(impl, model, who, prev_impl=None, prev_model=None):
+    """fine-grained tags for a client dump, comparing what CHANGED since the previous dump of that client on
+    both sides (so that a divergence is attributed once, to the operation that caused it)"""
+    a, b = parse_dump(impl), parse_dump(model)
+    if a is None or b is None or impl in ('err', 'panic') or model in ('err', 'panic', 'bad-op'):
+        return [] if impl == model else [f'dump.{who}.error']
+    fa, fb = _fields(a), _fields(b)
+    pa = _fields(parse_dump(prev_impl)) if prev_impl and prev_impl not in ('err', 'panic') else None
+    pb = _fields(parse_dump(prev_model)) if prev_model and prev_model not in ('err', 'panic', 'bad-op') else None
+    t = []
+    for k in ('latest', 'snap', 'since', 'ts', 'data', 'versions', 'children'):
+        x, y = fa[k], fb[k]
+        if k == 'ts':
+            same = (x is None and y is None) or (x is not None and y is not None and abs(x - y) <= 3)
+        else:
+            same = x == y
+        if same:
+            continue
+        if pa is not None and pb is not None:
+            # stale divergence: neither side changed this field in this step (or both by the same amount)
+            if k == 'since' and None not in (x, y, pa[k], pb[k]) and fa['snap'] == pa['snap'] and fb['snap'] == pb['snap']:
+                if x - pa[k] == y - pb[k]:
+                    continue
+            elif k in ('versions', 'children'):
+                da = {p: v for p, v in x.items() if pa[k].get(p) != v}
+                db = {p: v for p, v in y.items() if pb[k].get(p) != v}
+                ra = {p for p in pa[k] if p not in x}
+                rb = {p for p in pb[k] if p not in y}
+                if da == db and ra == rb:
+                    continue
+            elif x == pa[k] and y == pb[k]:
+                continue
+        t.append(k)
+    return [f'dump.{who}.{x}' for x in t]
+
+def raw_rows(s, mask_ts=True):
+    rows = set()
+    if s is None or s in ('empty', 'n/a'):
+        return rows
+    for w in s.split():
+        if mask_ts and w.startswith('C:'):
+            f = w.split(',')
+            if len(f) == 6:
+                f[4] = '*' if f[4] != 'NULL' else 'NULL'
+                w = ','.join(f)
+        rows.add(w)
+    return rows
+
+ALL_DUMP = {f'dump.{w}.{f}' for w in ('own', 'other') for f in ('latest', 'snap', 'since', 'ts', 'data', 'versions', 'children', 'error')} | {'dump.raw'}
+OWN_CHAIN = {'dump.own.latest', 'dump.own.versions', 'dump.own.children', 'dump.raw'}
+
 def compare_run(run, owned):
     """returns (in_scope, out_of_scope): lists of (rec, tags)"""
     ins, outs = [], []
+    if 'state.dump' in owned:
+        owned = set(owned) | ALL_DUMP
+    last_client = None
+    prev = {}          # client -> (impl dump, model dump)
+    prev_raw = (None, None)
+    cur_meta = None
+    mutating = False
     for r in run.recs:
+        if r.op not in ('dump', 'rawdump'):
+            if r.client:
+                last_client = r.client
+            mraw = r.meta['_raw'] if r.meta else None
+            if mraw != cur_meta:
+                cur_meta = mraw
+                mutating = False
+            o = r.i_out if isinstance(r.i_out, tuple) else ()
+            if (r.op == 'av' and o[:1] == ('ok',)) or (r.op == 'as' and o[:2] == ('ok', '1')) or r.op in ('create', 'reopen', 'http'):
+                mutating = True
         if r.model is None:
             continue
-        if r.op in ('dump', 'rawdump'):
-            same = dump_equal_mod_ts(r.impl, r.model)
-            tags = [] if same else ['state.dump']
+        if r.op == 'rawdump':
+            ia, ib = raw_rows(r.impl), raw_rows(r.model)
+            if ia == ib:
+                tags = []
+            else:
+                pa, pb = raw_rows(prev_raw[0]), raw_rows(prev_raw[1])
+                tags = [] if (prev_raw[0] is not None and ia - pa == ib - pb and pa - ia == pb - ib) else ['dump.raw']
+            prev_raw = (r.impl, r.model)
+        elif r.op == 'dump':
+            pi, pm = prev.get(r.client, (None, None))
+            if dump_equal_mod_ts(r.impl, r.model):
+                tags = []
+            else:
+                tags = dump_diff_tags(r.impl, r.model, 'own' if r.client == last_client else 'other', pi, pm)
+            prev[r.client] = (r.impl, r.model)
         elif r.ws[0] == 'http':
             tags = http_field_diffs(r)
+            opn = r.op if r.op in ('av', 'gcv', 'as', 'gs') else 'other'
+            tags = [t + '.' + opn if t.startswith('http.') else t for t in tags]
         else:
             tags = [] if r.i_out == r.m_out else tags_of_diff(r)
         if not tags:
             continue
-        if any(t in owned for t in tags):
+        if r.op in ('dump', 'rawdump') and not mutating:
+            tags = tags + ['noop.dump']
+        if any(t in owned or t.rsplit('.', 1)[0] in owned for t in tags):
             ins.append((r, tags))
         else:
             outs.append((r, tags))
